@@ -265,14 +265,14 @@ def section_int():
             bnd.update(range(c - 3, c + 4))
         bnd.update((lo - 300, hi + 300, hi * 2 + 2, lo * 2 - 2, hi // 2, 9, 10, 11, -9, -10, 35, 36, 37))
         if bits == 8:
-            full_forms = range(lo - 300, hi + 301) if not QUICK else sorted(bnd | set(range(lo - 300, hi + 301, 7)))
+            full_forms = range(lo - 300, hi + 301)
             basic = range(lo - 300, hi + 301)
         elif bits == 16:
-            full_forms = sorted(bnd)
+            full_forms = sorted(bnd) if QUICK else sorted(bnd | set(range(lo - 300, hi + 301, 5)))
             basic = range(lo - 300, hi + 301)
         else:
             full_forms = sorted(bnd)
-            n = 1500 if QUICK else 40000
+            n = 6000 if QUICK else 150000
             span = hi - lo
             basic = [RND.randint(lo - span // 4, hi + span // 4) for _ in range(n)]
             basic += [lo - 1 - RND.getrandbits(RND.randint(1, 80)) for _ in range(n // 10)]
@@ -889,7 +889,7 @@ def section_datetime():
         except Exception as e:  # pylint: disable=broad-except
             V('datetime-atomic-xml-raises-' + type(e).__name__, input=repr(dt))
 
-    step = 5 if QUICK else 1
+    step = 3 if QUICK else 1
     i = 0
     for (y, mo, d) in stamps:
         for t in times:
@@ -932,7 +932,7 @@ def section_datetime():
         f = (2024, 2, 29, 0, 0, m, 0)
         dt_from_string(ts_string(f, 0), 'ts', f, 0, None, m <= 59, ('dt-sec', m), check_copy=False)
     for us in [0, 1, 9, 10, 99, 100, 999, 1000, 9999, 10000, 99999, 100000, 123456, 654321, 999999] + \
-            [RND.randrange(1000000) for _ in range(200 if QUICK else 5000)]:
+            [RND.randrange(1000000) for _ in range(1000 if QUICK else 50000)]:
         f = (2023, 7, 4, 1, 2, 3, us)
         dt_from_string(ts_string(f, -5), 'ts', f, -5, None, True, ('dt-us', us), check_copy=False)
 
@@ -962,9 +962,9 @@ def section_datetime():
         for secs in sec_vals:
             for k, us in enumerate(us_vals):
                 from_td(days, secs, us, ('fields', 'seconds', 'normal')[(k + secs) % 3])
-    for secs in range(0, 86400, 7 if QUICK else 1):     # every second of a day
+    for secs in range(0, 86400, 3 if QUICK else 1):     # every second of a day (quick: every third)
         from_td(secs % 3, secs, (secs * 7919) % 1000000 if secs % 2 else 0, 'normal')
-    for _ in range(500 if QUICK else 20000):
+    for _ in range(3000 if QUICK else 150000):
         from_td(RND.randrange(100000000), RND.randrange(86400), RND.randrange(1000000), 'normal')
 
     # ---- C4: interval strings incl. non-normalised fields ------------------------------------
@@ -1223,11 +1223,11 @@ def section_real():
     mants = [0, 1, 2, 0x3FFFFF, 0x400000, 0x400001, 0x555555, 0x2AAAAA, 0x7FFFFE, 0x7FFFFF]
     vals32 = []
     for e in range(0, 255):                    # every float32 exponent incl. subnormals
-        extra = [RND.getrandbits(23) for _ in range(2 if QUICK else 40)]
+        extra = [RND.getrandbits(23) for _ in range(6 if QUICK else 60)]
         for m in mants + extra:
             for sgn in (0, 1):
                 vals32.append(f32_from_bits(sgn << 31 | e << 23 | m))
-    n = 15000 if QUICK else 1200000
+    n = 120000 if QUICK else 3000000
     sample32 = [f32_from_bits(RND.getrandbits(32)) for _ in range(n)]
     dec32 = []
     for k in range(-45, 39):
@@ -1250,7 +1250,7 @@ def section_real():
     mants64 = [0, 1, 1 << 51, (1 << 52) - 1, 0x5555555555555, 0xAAAAAAAAAAAAA]
     vals64 = []
     for e in range(0, 2047):                   # every float64 exponent incl. subnormals
-        extra = [RND.getrandbits(52) for _ in range(1 if QUICK else 12)]
+        extra = [RND.getrandbits(52) for _ in range(2 if QUICK else 20)]
         for m in mants64 + extra:
             vals64.append(f64_from_bits((e & 1) << 63 | e << 52 | m))
             if m in (0, (1 << 52) - 1):
@@ -1264,7 +1264,7 @@ def section_real():
               5e-324, 2.2250738585072014e-308, 2.225073858507201e-308, 1.7976931348623157e308, 9007199254740993.0, 1e22, 1e23,
               8.41e21, 2.9802322387695312e-08, 9.5367431640625e-07, 4.35, 0.285, 1.005, 1e21, 123456.789e3, 5e-5]
     dec64 += [-x for x in dec64[-20:]]
-    n = 15000 if QUICK else 600000
+    n = 100000 if QUICK else 2000000
     sample64 = [f64_from_bits(RND.getrandbits(64)) for _ in range(n)]
     for v in specials + vals64 + dec64:
         real_direct(v, 'real64', 'cim')
@@ -1296,7 +1296,7 @@ def section_xml_other():
     # integers: boundaries through complete elements, and text forms through the value unpacker
     for tname, (lo, hi) in LIMITS.items():
         cls = CLS[tname]
-        for v in sorted({lo, lo + 1, -1, 0, 1, hi - 1, hi} & set(range(lo, hi + 1)) | {lo, hi}):
+        for v in sorted(c for c in {lo, lo + 1, -1, 0, 1, hi - 1, hi} if lo <= c <= hi):
             def same(got, v=v, cls=cls):
                 return None if type(got) is cls and int(got) == v else '%s %r' % (type(got).__name__, got)
             xml_roundtrip(cls(v), tname, same, '%s(%d)' % (cls.__name__, v))
